@@ -3,6 +3,8 @@
 set -e
 cd "$(dirname "$0")"
 REPO=${VERIF_REPO:-/repo}
+OUT=${1:-.}
+mkdir -p "$OUT"
 {
   echo "module verifharness"
   echo
@@ -13,5 +15,5 @@ REPO=${VERIF_REPO:-/repo}
   sed -n '/^require (/,/^)/p' "$REPO/go.mod"
   echo
   echo "replace github.com/evolbioinfo/gotree => $REPO"
-} > go.mod
-cp "$REPO/go.sum" go.sum
+} > "$OUT/go.mod"
+cp "$REPO/go.sum" "$OUT/go.sum"
